@@ -85,6 +85,33 @@ static std::vector<Misuse> const& table(){
         if (r.coin()){ std::istringstream is(b, std::ios::binary); g.read(is, mode_binary); } else g.read(write_file(tmp + "/future.bin", b).c_str()); });
     add("read:binary-unknown-grid-type", true, st_any, [](TasmanianSparseGrid &g, Rng&, std::string const&){
         std::string b = std::string("TSG5") + "z" + "nnnse"; std::istringstream is(b, std::ios::binary); g.read(is, mode_binary); });
+    add("read:binary-damaged-inside-or-after-construction-block", true, st_any, [](TasmanianSparseGrid &g, Rng &r, std::string const&){
+        // a file written while dynamic construction is active, with delivered samples; then truncated inside the construction block / before the end marker, or with a wrong end marker
+        TasmanianSparseGrid src;
+        switch(r.range(0, 3)){
+            case 0: src.makeGlobalGrid(2, 1, 2, type_level, rule_clenshawcurtis); break;
+            case 1: src.makeSequenceGrid(2, 1, 2, type_level, rule_rleja); break;
+            case 2: src.makeLocalPolynomialGrid(2, 1, 2, 1 + r.range(0, 1), rule_localp); break;
+            default: src.makeWaveletGrid(2, 1, 1, 1); break;
+        }
+        src.beginConstruction();
+        std::vector<double> cand = (src.isLocalPolynomial() || src.isWavelet()) ? src.getCandidateConstructionPoints(1e-3, refine_classic, 0) : src.getCandidateConstructionPoints(type_level, 0);
+        size_t take = std::min<size_t>(cand.size() / 2, 3);
+        if (take > 0){ std::vector<double> x(cand.begin(), cand.begin() + (long)(2 * take)), y(take, 0.5); src.loadConstructedPoints(x, y); }
+        std::ostringstream os(std::ios::binary); src.write(os, true);
+        std::string b = os.str();
+        switch(r.range(0, 2)){
+            case 0: b.resize(b.size() - 1); break;                                     // end marker missing
+            case 1: b[b.size() - 1] = 'x'; break;                                       // wrong end marker
+            default: b.resize(b.size() - (size_t) r.range(2, (int) std::min<size_t>(b.size() / 4, 40))); break; // truncated inside the trailing blocks
+        }
+        std::istringstream is(b, std::ios::binary); g.read(is, mode_binary); });
+    add("makeGlobalGrid:gauss-patterson-one-level-beyond-the-table", true, st_any, [](TasmanianSparseGrid &g, Rng &r, std::string const&){
+        switch(r.range(0, 2)){
+            case 0: g.makeGlobalGrid(1, 1, 9, type_level, rule_gausspatterson); break;
+            case 1: g.makeGlobalGrid(2, 0, 9, type_level, rule_gausspatterson, std::vector<int>{1, 3}); break;
+            default: g.makeGlobalGrid(1, 1, 9, type_tensor, rule_gausspatterson); break;
+        } });
     // ---- update --------------------------------------------------------------------------------------------------------------------------
     add("updateGrid:empty-grid", false, [](TasmanianSparseGrid const &g, Cfg const&){ return st_empty(g); }, [](TasmanianSparseGrid &g, Rng &r, std::string const&){
         switch(r.range(0, 3)){ case 0: g.updateGrid(2, type_level, std::vector<int>()); break; case 1: g.updateGlobalGrid(2, type_level, (const int*) nullptr); break; case 2: g.updateSequenceGrid(2, type_level, (const int*) nullptr); break; default: g.updateFourierGrid(2, type_level, std::vector<int>()); } });
@@ -251,6 +278,13 @@ void mon_c14(CaseCtx &c, Rng &rng){
         try{ std::ostringstream os(std::ios::binary); h.g.write(os, true); std::istringstream is(os.str(), std::ios::binary); TasmanianSparseGrid r; r.read(is, true); (void) observe(r, oo); }
         catch(std::exception &e){ c.viol("misuse-left-grid-unusable:" + mu.name + ":write-read", J().str("what", e.what()).obj()); return; }
     }else{
+        // an object emptied by a failed make / read is a fully usable EMPTY object: no construction in progress, writable, copyable
+        try{
+            if (g.isUsingConstruction()){ c.viol("misuse-left-grid-unusable:" + mu.name + ":empty-object-reports-active-construction", J().str("state", cls).obj()); return; }
+            { std::ostringstream os(std::ios::binary); g.write(os, true); std::ostringstream oa; g.write(oa, false); }
+            g.finishConstruction();
+            TasmanianSparseGrid cp(g); if (!cp.empty()){ c.viol("misuse-left-grid-unusable:" + mu.name + ":copy-of-empty-object-not-empty", J().obj()); return; }
+        }catch(std::exception &e){ c.viol("misuse-left-grid-unusable:" + mu.name + ":empty-object", J().str("what", e.what()).obj()); return; }
         try{ g.makeLocalPolynomialGrid(2, 1, 2); (void) observe(g, oo); }catch(std::exception &e){ c.viol("misuse-left-grid-unusable:" + mu.name + ":make-after", J().str("what", e.what()).obj()); return; }
     }
     c.count("exercised:" + mu.name);
